@@ -443,7 +443,7 @@ def classify_c16(d):
 
 def check_C16(run, replay=None):
     tier = run.tier
-    count = 0 if replay else (1200 if tier == "quick" else 40000)
+    count = 0 if replay else (1200 if tier == "quick" else 30000)
     C.proof_stage(run, "C16")
     if tier == "thorough" and not replay: coqchk_stage(run, "C16")
     ok, log, bins = C.harness_build(["httpresp_c16"])
@@ -463,7 +463,7 @@ def check_C16(run, replay=None):
         cases = old_cases + again
     corpus = [d for d in cases if d.get("corpus")]
     allc = cases
-    nsh = 16 if len(allc) > 200 else 4
+    nsh = 48 if len(allc) > 4000 else 16 if len(allc) > 200 else 4     # smaller files elaborate faster than proportionally
     shards = [s for s in (allc[i::nsh] for i in range(nsh)) if s]
     res = C.run_case_files("C16", [c16_text(s) for s in shards])
     dist = collections.Counter(); verd = collections.Counter()
